@@ -63,7 +63,7 @@ def initState (toks : List String) (mods keys : List String) : State × List (Ad
     feeUpgrade := Posmint.Generated.govFeeUpgrade }
   genesis { accs := accs, vals := vals, p := p, daoTokens := i "daot", daoOwner := kvOf toks "daoo", aclOwner := kvOf toks "aclo",
             paramNames := allParamNames, pool := mods.getD 0 "", feeAcc := mods.getD 1 "", posAcc := mods.getD 2 "",
-            daoAcc := mods.getD 3 "", keys := (List.range keys.length).zip keys,
+            daoAcc := mods.getD 3 "", keys := (List.range keys.length).zip keys, nStored := (if kvOf toks "stored" == "" then keys.length else (intOf toks "stored").toNat),
             defaultMaxVals := Posmint.Generated.defaultMaxValidators }
 
 def parseVotes (s : String) : List Vote :=
@@ -121,7 +121,9 @@ def stepChain (pr : ChainProg) (toks : List String) : ChainProg × String :=
         | "tx" :: mode :: rest =>
           (parseMsg rest).map fun m =>
             let t : Tx := { msg := m, signer := (intOf rest "signer").toNat, pk := kvOf rest "pk" == "1", fee := intOf rest "fee",
-                            memo := (intOf rest "memo").toNat, mutn := kvOf rest "mut", id := " ".intercalate rest }
+                            memo := (intOf rest "memo").toNat,
+                            -- the multisignature-specific damages (components exchanged / one dropped) are signature damage
+                            mutn := (if kvOf rest "mut" == "msswap" || kvOf rest "mut" == "msdrop" then "sig" else kvOf rest "mut"), id := " ".intercalate rest }
             .tx (if mode == "check" then Mode.check else if mode == "simulate" then Mode.simulate else Mode.deliver) t
         | _ => none
       match op? with
